@@ -75,6 +75,16 @@ Theorem C13_json_roundtrip : forall t v, wf t v ->
   exists j v', print_tv t v = Ok j /\ parse_tv j = Ok (t, v') /\ is_equal (t, v) (t, v') = Ok true.
 Proof. exact json_roundtrip. Qed.
 
+(* What the numbers in the JSON are: writing any Rust integers as a non-bit scalar type and
+   reading them with the reader the serializer uses for that type (to_flattened_array_u8 for u8,
+   _i8 for i8, ... _i128 for i128) gives each element's own value modulo 2^w, in two's complement
+   for signed types - negative numbers print negative, u128 prints up to 2^128-1.  (C13_enc_dec_u128
+   composed with the reader theorems.) *)
+Theorem C13_json_prints_value : forall st xs, st <> Bit -> Forall rust_int xs ->
+  exists b, vec_to_bytes st xs = Ok b /\
+            rmap (map (reader st)) (vec_u128_from_bytes st b) = Ok (map (sval st) xs).
+Proof. exact json_prints_value. Qed.
+
 (* Parsing never panics (nor runs out of fuel: there is none), on any JSON tree whatever: every
    malformed document is an Err. *)
 Theorem C13_json_parse_total : forall j, parse_tv j <> Panic /\ parse_tv j <> OutOfFuel.
@@ -108,5 +118,6 @@ Proof. exact example_roundtrip. Qed.
 
 Print Assumptions C13_json_roundtrip.
 Print Assumptions C13_json_parse_total.
+Print Assumptions C13_json_prints_value.
 Print Assumptions C13_json_roundtrip_refuted_empty_vector.
 Print Assumptions C13_json_roundtrip_refuted_empty_named.
